@@ -139,8 +139,9 @@ SKIPPED = 'SKIPPED'
 
 class Model(object):
     def __init__(self, prog, wf_input=None, results=None, env=None,
-                 skipped=()):
+                 skipped=(), timeouts_may_win=False):
         self.skipped = set(skipped)
+        self.timeouts_may_win = timeouts_may_win
         self.P = Prog(prog)
         self.input = dict(prog.get('input') or {})
         self.input.update(wf_input or {})
@@ -224,7 +225,20 @@ class Model(object):
             self._finish(s)
             return
         for iid in sorted(running):
-            for s2 in self._complete(s, iid):
+            name = s.insts[iid]['name']
+            never = self._never_answers(s, name)
+            to = self._policy(name, 'timeout')
+            if not never:
+                for s2 in self._complete(s, iid):
+                    self._dfs(s2)
+            if to and (never or self.timeouts_may_win):
+                for s2 in self._complete(s, iid, forced=ERROR):
+                    self._dfs(s2)
+            if never and not to:
+                # nobody will ever finish this task
+                s2 = s.copy()
+                s2.insts[iid]['state'] = 'STUCK'
+                s2.flags.add('stuck')
                 self._dfs(s2)
 
     def _finish(self, s):
@@ -288,6 +302,12 @@ class Model(object):
             state, result = self._action_result(s, inst)
         else:
             state, result = forced, None
+            if inst['state'] == RUNNING and \
+                    self.P.tasks[inst['name']].get('join') is None:
+                # a timed-out attempt still consumed its action run
+                t = self.P.tasks[inst['name']]
+                key = t.get('key', inst['name'])
+                s.runs[key] = s.runs.get(key, 0) + 1
         inst['result'] = result
         self._after_complete(s, iid, state)
         return self._settle_all(s)
@@ -308,7 +328,9 @@ class Model(object):
             if pub_spec:
                 pub = self.eval_deep(pub_spec, self.layers(inst['ctx']), inst)
             else:
-                pub = {}
+                # nothing is published for this state: what an earlier
+                # attempt of the same task published stays in place
+                pub = dict(inst.get('published') or {})
             inst['published'] = pub
             out_ctx = dict(inst['ctx'])
             for var, val in pub.items():
@@ -318,13 +340,19 @@ class Model(object):
             inst['out'] = out_ctx
             # fail-on policy: a successful task becomes ERROR
             fo = self._policy(name, 'fail-on')
+            # (policy fields are evaluated against the task's inbound
+            # context; only the retry conditions see the published values)
             if state == SUCCESS and fo is not None and \
-                    self.eval(fo, self.layers(out_ctx), inst):
+                    self.eval(fo, self.layers(inst['ctx']), inst):
                 state = ERROR
                 inst['state'] = ERROR
             # retry policy (evaluated on every completion, before routing)
             rp = self._policy(name, 'retry')
-            if rp and int(rp.get('count', 0)) > 0:
+            if rp:
+                rp = dict(rp)
+                rp['count'] = int(self.eval(rp.get('count', 0),
+                                            self.layers(inst['ctx']), inst))
+            if rp and rp['count'] > 0:
                 lay = self.layers(out_ctx)
                 cont = rp.get('continue-on')
                 brk = rp.get('break-on')
@@ -402,6 +430,13 @@ class Model(object):
             s.flags.add('succeed_cmd')
         elif cmd == 'pause':
             s.wf = 'PAUSED'
+
+    def _never_answers(self, s, name):
+        t = self.P.tasks[name]
+        key = t.get('key', name)
+        seq = self.results.get(key) or ['S']
+        n = s.runs.get(key, 0)
+        return seq[min(n, len(seq) - 1)] == 'N'
 
     def _policy(self, name, key):
         t = self.P.tasks[name]
@@ -619,8 +654,9 @@ def _uniq(dicts):
 
 
 def allowed_outcomes(prog, wf_input=None, results=None, env=None,
-                     skipped=()):
-    return Model(prog, wf_input, results, env, skipped).run()
+                     skipped=(), timeouts_may_win=False):
+    return Model(prog, wf_input, results, env, skipped,
+                 timeouts_may_win).run()
 
 
 # ------------------------------------------------------------------ compare
